@@ -456,7 +456,7 @@ fn run_litmus(t: &mut Tape, cx: &mut Cx) -> Result<(), String> {
     use std::sync::atomic::AtomicUsize;
     let level = t.below(4) as usize; // 0 slice 1 region 2 guest memory 3 references from get_atomic_ref
     let ty = t.below(4) as usize; // u8 u16 u32 u64
-    let rounds: usize = if cx.tier == Tier::Quick { 40_000 } else { 4_000_000 };
+    let rounds: usize = if cx.tier == Tier::Quick { 25_000 } else { 4_000_000 };
     note!(cx, "store buffering, SeqCst {} store then load at {} level, {} rounds", ATOM_NAMES[ty], ["slice", "region", "guest-memory", "atomic-reference"][level], rounds);
     cx.nt("ordering_litmus");
     let mem = build_mmap(&Layout { regs: vec![(0x1000, 4096)] })?;
@@ -479,11 +479,13 @@ fn run_litmus(t: &mut Tape, cx: &mut Cx) -> Result<(), String> {
                 let vs = unsafe { VolatileSlice::new(host as *mut u8, 4096) };
                 let mut i = 1usize;
                 loop {
+                    let mut spins = 0u32;
                     while go.load(Ordering::Acquire) < i {
                         if stop.load(Ordering::Relaxed) {
                             return;
                         }
-                        std::hint::spin_loop();
+                        spins += 1;
+                        if spins < 4000 { std::hint::spin_loop() } else { std::thread::yield_now() }
                     }
                     let got = match level {
                         0 => {
@@ -519,8 +521,10 @@ fn run_litmus(t: &mut Tape, cx: &mut Cx) -> Result<(), String> {
                 (*((host + offs[1]) as *const std::sync::atomic::AtomicU64)).store(0, Ordering::SeqCst);
             }
             go.store(i, Ordering::Release);
+            let mut spins = 0u32;
             while done.load(Ordering::Acquire) < 2 * i {
-                std::hint::spin_loop();
+                spins += 1;
+                if spins < 4000 { std::hint::spin_loop() } else { std::thread::yield_now() }
             }
             if seen[0].load(Ordering::Relaxed) == 0 && seen[1].load(Ordering::Relaxed) == 0 {
                 forbidden = Some(i);
